@@ -54,8 +54,10 @@ def trial_case(cid, rng, true_pt=False, zero_var=False):
         for k in range(nrepv[e]):
             plan.append(("rep", np.array(R[e][k], float)))
             plan.append(("err", np.array(eps[e][k], float)))
-    state = {"i": 0, "bad": False}
+    state = {"i": 0, "bad": False, "warm": False}
     def mvn(mean, cov, size):
+        if state["warm"]:          # an earlier trial of the same protocol object on another population: not part of the case
+            return np.ones(len(mean)) if size is None else np.ones((int(np.prod(size)), len(mean)))
         if state["i"] >= len(plan):
             state["bad"] = True
             return np.zeros(len(mean)) if size is None else np.zeros((size, len(mean)))
@@ -75,6 +77,15 @@ def trial_case(cid, rng, true_pt=False, zero_var=False):
                 var = 0.0 if zero_var else 1.0
                 prot = G_E_Phenotyping(gm, nenv=nenv, nrep=np.array(nrepv), var_env=var, var_rep=var, var_err=var,
                                        rng=srng if not zero_var else np.random.default_rng(rng.randrange(2 ** 32)))
+                if rng.random() < 0.35:
+                    # the protocol object has already been used on a population of another size
+                    pg2 = make_pop(n + rng.randrange(1, 4), p, T, rng)[0]
+                    state["warm"] = True
+                    try:
+                        prot.phenotype(pg2)
+                    finally:
+                        state["warm"] = False
+                    c["warm"] = True
                 df = prot.phenotype(pg)
             ok = [True]
             rows = []
